@@ -455,4 +455,70 @@ func TestC15(t *testing.T) {
 			c.Fail(ev.Sig{"op": "bubble-leak"}, nil, nil, "goroutines left blocked after the scenario: %s; %s", leak, sc.String())
 		}
 	})
+	// faults at the same moment (real scheduler): four connections receive undecodable input
+	// while four healthy ones each send a request nobody handles (also an error report) and
+	// then a request that is handled; the application never reads ErrorReports.  Every handled
+	// request is answered: offering a report never holds a connection up.
+	rec.Suite("faults-at-once", rec.N(12, 600), func(c *ev.Case) {
+		c.Class("faults-at-once")
+		const F, H = 4, 4
+		rounds := 200
+		mux := diam.NewServeMux()
+		mux.HandleFunc("GTR", func(dc diam.Conn, m *diam.Message) { m.Answer(2001).WriteTo(dc) })
+		for round := 0; round < rounds; round++ {
+			start := make(chan struct{})
+			done := make(chan bool, H)
+			var all []*memnet.Conn
+			for k := 0; k < F+H; k++ {
+				mc := memnet.NewConn()
+				all = append(all, mc)
+				if _, err := diam.NewConn(mc, "peer", mux, ctx.Parser); err != nil {
+					c.Fail(ev.Sig{"op": "setup"}, nil, nil, "NewConn: %v", err)
+					return
+				}
+				healthy := k >= F
+				go func(k int) {
+					<-start
+					if !healthy {
+						mc.Feed(peer.Msg(0x80, 8388606, 0, 1, 1))
+						return
+					}
+					unhandled := seqMsg(uint32(k), 12)
+					unhandled[5], unhandled[6], unhandled[7] = 0, 1, 1 // command 257: known to the dictionary, no handler
+					mc.Feed(unhandled)
+					mc.Feed(seqMsg(uint32(1000+k), 12))
+					deadline := time.After(20 * time.Second)
+					for {
+						if msgs, _ := peer.SplitMessages(mc.Written()); len(msgs) >= 1 {
+							done <- peer.Header(msgs[0]).HopByHop == uint32(1000+k)
+							return
+						}
+						select {
+						case <-deadline:
+							done <- false
+							return
+						case <-time.After(200 * time.Microsecond):
+						}
+					}
+				}(k)
+			}
+			close(start)
+			ok := true
+			for k := 0; k < H; k++ {
+				if !<-done {
+					ok = false
+				}
+			}
+			for _, mc := range all {
+				mc.FeedEOF()
+			}
+			if !ok {
+				c.Fail(ev.Sig{"op": "healthy-connection-not-served", "faults": "undecodable-message", "how": "faults-at-once"}, nil, nil, "round %d: %d connections received undecodable input while %d healthy ones sent an unhandled and then a handled request at the same moment (nobody reads ErrorReports): a handled request was not answered within 20 s", round, F, H)
+				return
+			}
+		}
+		c.Event("scenarios", rounds)
+		c.Event("faults_injected", rounds*F)
+		c.Event("answers_matched", rounds*H)
+	})
 }
